@@ -1,0 +1,30 @@
+//go:build verif
+
+package webp
+
+// Re-export for the /verif harness (property C17): the boolean decoder of
+// internal/bitio driven read by read, with its end-of-input flag.  Add-only; not
+// compiled without the "verif" build tag.
+
+import "github.com/deepteams/webp/internal/bitio"
+
+// VerifBoolReaderStep is the reader state after one GetBit.
+type VerifBoolReaderStep struct {
+	Bit   int
+	Value uint64
+	Range uint32
+	Bits  int
+	EOF   bool
+}
+
+// VerifBoolReaderRun creates a BoolReader over data and calls GetBit(p) for each
+// p in probs.  It returns the state right after NewBoolReader and after each read.
+func VerifBoolReaderRun(data []byte, probs []uint8) (initial VerifBoolReaderStep, steps []VerifBoolReaderStep) {
+	br := bitio.NewBoolReader(data)
+	initial = VerifBoolReaderStep{Bit: 0, Value: br.Value, Range: br.Range, Bits: br.Bits, EOF: br.EOF()}
+	for _, p := range probs {
+		b := br.GetBit(p)
+		steps = append(steps, VerifBoolReaderStep{Bit: b, Value: br.Value, Range: br.Range, Bits: br.Bits, EOF: br.EOF()})
+	}
+	return initial, steps
+}
